@@ -2123,6 +2123,23 @@ func (r *Raft) installSnapshot(rpc RPC, req *InstallSnapshotRequest) {
 	var snapEntry Log
 	continues := r.logs.GetLog(req.LastLogIndex, &snapEntry) == nil && snapEntry.Term == req.LastLogTerm
 
+	// The entries we keep beyond the snapshot may carry configurations that
+	// are newer than the one the snapshot was taken with; they are in force.
+	if continues {
+		lastIdx, _ := r.getLastLog()
+		for index := req.LastLogIndex + 1; index <= lastIdx; index++ {
+			var entry Log
+			if err := r.logs.GetLog(index, &entry); err != nil {
+				r.logger.Error("failed to get log", "index", index, "error", err)
+				break
+			}
+			if err := r.processConfigurationLogEntry(&entry); err != nil {
+				r.logger.Error("failed to process configuration entry", "index", index, "error", err)
+				break
+			}
+		}
+	}
+
 	// Clear old logs if r.logs is a MonotonicLogStore that would be left with a
 	// gap. Otherwise compact the logs. In both cases, log any errors and
 	// continue.
